@@ -344,6 +344,11 @@ def def_facts(f, z, x, k):
         # an allocation is at most isize::MAX bytes (a language guarantee of Vec / slice / str): so is the element count
         z.add(k, '0', 0)
         z.add('0', k, -((1 << 63) - 1))
+    if tag == 'proj' and tuple(x[2])[:3] == ('as Some', '0', '0') and isinstance(strip(x[1]), tuple) and strip(x[1])[0] == 'call' and \
+            strip(x[1])[1].endswith('Iterator>::next') and 'enumerate' in expr_str(strip(x[1]), -40).lower():
+        # the index an enumerate() over something in memory hands out is the index of an element that exists: below isize::MAX
+        z.add(k, '0', 0)
+        z.add('0', k, -((1 << 63) - 2))
     if tag == 'proj' and tuple(x[2]) == ('as Some', '0') and isinstance(strip(x[1]), tuple) and strip(x[1])[0] == 'call' and \
             strip(x[1])[1].endswith('::checked_sub') and ('usize' in strip(x[1])[1] or 'u64' in strip(x[1])[1] or 'u32' in strip(x[1])[1]):
         # the Some payload of a.checked_sub(b) is a - b with b >= 0: at most a
@@ -977,6 +982,8 @@ def discharge_call(fx, f, s, tainted_params):
             return None
         if k2 == 'str-index' and 'RangeFull' in expr_str(ops[-1], -4):
             return 'D-CONST', 'full range'
+        if k2 == 'index' and 'RangeFull' in expr_str(ops[-1], -4):
+            return 'D-CONST', 'full range of a slice'
         if k2 == 'str-index' and s['fn'].startswith('lex::Lex::'):
             r = cursor_range(fx, f, s)
             if r:
